@@ -795,3 +795,725 @@ Proof.
            (S_ "vq") 110%N (T [""; "7"]) (mkopt "num" (Some "n") 520 VNone) ex_f_aug); vm_compute; reflexivity.
 Qed.
 Close Scope string_scope.
+
+(* ================= facts about the augmented format ================= *)
+(* every argument is listed under its own name (true of every format built through the API) *)
+Definition args_named (l : list (str * arg)) : Prop := forall k a, In (k, a) l -> k = a_name a.
+Definition args_named_b (l : list (str * arg)) : bool := forallb (fun ka => str_eqb (fst ka) (a_name (snd ka))) l.
+Lemma args_named_b_ok l : args_named_b l = true -> args_named l.
+Proof.
+  unfold args_named_b, args_named. rewrite forallb_forall. intros H k a Hin.
+  specialize (H (k, a) Hin). cbn in H. destruct (str_eqb_spec k (a_name a)); [assumption|discriminate].
+Qed.
+
+Lemma add_elements_app es1 : forall f es2,
+  add_elements f (es1 ++ es2) = do f1 <- add_elements f es1; add_elements f1 es2.
+Proof.
+  induction es1 as [|e r IH]; intros f es2; cbn [app add_elements bind]; [reflexivity|].
+  destruct (match e with EOpt o => add_option f o | ECOpt c => add_command_option f c
+                       | EArg a => add_argument f a | ECName c => add_command_name f c end) as [f1|k];
+    cbn [bind]; [apply IH|reflexivity].
+Qed.
+
+Lemma add_cnames_args cs : forall f f1, add_elements f (map ECName cs) = Ok f1 ->
+  f_base f1 = f_base f /\ f_args f1 = f_args f.
+Proof.
+  induction cs as [|c r IH]; intros f f1; cbn [map add_elements].
+  - intros H. inversion H. auto.
+  - destruct f as [b cn co cs' ar os oss hm ho]. cbn [add_command_name bind]. intros H.
+    apply IH in H as [H1 H2]. cbn in *. auto.
+Qed.
+Lemma add_opts_args os0 : forall f f1, add_elements f (map (fun no : str * opt => EOpt (snd no)) os0) = Ok f1 ->
+  f_base f1 = f_base f /\ f_args f1 = f_args f.
+Proof.
+  induction os0 as [|o r IH]; intros f f1; cbn [map add_elements].
+  - intros H. inversion H. auto.
+  - unfold add_option. destruct (opt_name_taken f (o_long (snd o))); [discriminate|].
+    destruct (optname_taken f (o_short (snd o))); [discriminate|].
+    destruct f as [b cn co cs' ar os oss hm ho]. cbn [bind]. intros H.
+    apply IH in H as [H1 H2]. cbn in *. auto.
+Qed.
+Lemma get_arguments_all_nobase f : f_base f = None -> get_arguments_all f = f_args f.
+Proof. destruct f as [[bf|] cn co cs ar os oss hm ho]; cbn; [discriminate|reflexivity]. Qed.
+
+Lemma add_args_args l : forall f f1, f_base f = None -> NoDup (map fst (f_args f)) ->
+  add_elements f (map (fun na : str * arg => EArg (snd na)) l) = Ok f1 ->
+  f_base f1 = None /\ f_args f1 = f_args f ++ map (fun na => (a_name (snd na), snd na)) l /\
+  NoDup (map fst (f_args f1)).
+Proof.
+  induction l as [|[k a] r IH]; intros f f1 Hb Hnd; cbn [map add_elements snd].
+  - intros H. inversion H; subst. rewrite app_nil_r. auto.
+  - unfold add_argument. cbn [has_argument get_arguments]. rewrite (get_arguments_all_nobase f Hb).
+    destruct (shas (a_name a) (f_args f)) eqn:Hs; [discriminate|].
+    destruct (has_multi_all f); [discriminate|].
+    destruct (a_required a && has_optional_all f); [discriminate|].
+    destruct f as [b cn co cs' ar os oss hm ho]. cbn [bind f_args f_base] in *.
+    assert (sget (a_name a) ar = None) as Hn.
+    { rewrite shas_sget in Hs. destruct (sget (a_name a) ar); [discriminate|reflexivity]. }
+    assert (sset (a_name a) a ar = ar ++ [(a_name a, a)]) as Hset by (unfold sset; now apply sset_absent).
+    intros H. apply IH in H; cbn [f_base f_args].
+    + destruct H as (H1 & H2 & H3). split; [exact H1|]. split; [|exact H3].
+      rewrite H2. cbn [f_args]. rewrite Hset, <- app_assoc. reflexivity.
+    + exact Hb.
+    + rewrite Hset, map_app. cbn [map fst]. apply NoDup_app_snoc; [exact Hnd|now apply sget_none_notin].
+Qed.
+
+Lemma sset_keys {V} k (v : V) d : map fst (sset k v d) = map fst d ++ (if shas k d then [] else [k]).
+Proof.
+  unfold sset, shas, ahas. induction d as [|[k' v'] r IH]; cbn; [reflexivity|].
+  destruct (str_eqb_spec k k') as [->|Hn]; cbn; [now rewrite app_nil_r|]. now rewrite IH.
+Qed.
+Lemma supdate_keys {V} (d2 d1 : list (str * V)) : exists l, map fst (supdate d1 d2) = map fst d1 ++ l.
+Proof.
+  unfold supdate. revert d1. induction d2 as [|[k v] r IH]; intros d1; cbn [fold_left fst snd].
+  - exists []. now rewrite app_nil_r.
+  - destruct (IH (sset k v d1)) as [l Hl]. rewrite Hl, sset_keys, <- app_assoc. eauto.
+Qed.
+Lemma sset_named k a l : args_named l -> k = a_name a -> args_named (sset k a l).
+Proof. intros Hl Hk k' a' Hin. apply in_sset in Hin as [[-> ->]|Hin]; [exact Hk|eapply Hl; eauto]. Qed.
+Lemma supdate_named d2 : forall d1, args_named d1 -> args_named d2 -> args_named (supdate d1 d2).
+Proof.
+  unfold supdate. induction d2 as [|[k a] r IH]; intros d1 H1 H2; cbn [fold_left fst snd]; [exact H1|].
+  apply IH.
+  - apply sset_named; [exact H1|]. apply H2. now left.
+  - intros k' a' Hin. apply H2. now right.
+Qed.
+Lemma pseudo_named f cns : forall j i,
+  args_named (map (fun p : str * arg * cname => (fst (fst p), snd (fst p))) (pseudo_args f cns j i)).
+Proof.
+  induction cns as [|c r IH]; intros j i; cbn [pseudo_args map]; [intros k a []|].
+  intros k a [H|H]; [inversion H; reflexivity|eapply IH; eauto].
+Qed.
+
+Lemma map_named l : args_named l -> map (fun na : str * arg => (a_name (snd na), snd na)) l = l.
+Proof.
+  induction l as [|[k a] r IH]; intros H; cbn [map snd]; [reflexivity|].
+  rewrite IH by (intros k' a' Hin; apply H; now right). rewrite <- (H k a) by now left. reflexivity.
+Qed.
+
+(* what the parser's preamble produces: ar is the argument list of f' (command-name slots first),
+   its names are distinct, and cns names the first (length cns) of them *)
+Record aug_ok (f' : fmt) (ar : list (str * arg)) (cns : list (str * cname)) : Prop := {
+  aug_args : get_arguments_all f' = ar;
+  aug_nodup : NoDup (map fst ar);
+  aug_named : args_named ar;
+  aug_cns : map fst cns = map fst (firstn (length cns) ar) }.
+
+Lemma firstn_map_fst_app {X Y} (l1 : list (X * Y)) l (l2 : list (X * Y)) :
+  map fst l2 = map fst l1 ++ l -> map fst l1 = map fst (firstn (length l1) l2).
+Proof.
+  revert l2. induction l1 as [|x r IH]; intros l2 H; cbn [length firstn map]; [reflexivity|].
+  destruct l2 as [|y l2]; [discriminate|]. cbn [map app] in H. inversion H as [[H0 H1]]. cbn [firstn map].
+  f_equal. eapply IH; eauto.
+Qed.
+
+Lemma aug_format_ok f f' ar cns :
+  aug_format f = Ok (f', ar, cns) -> args_named (get_arguments_all f) -> aug_ok f' ar cns.
+Proof.
+  unfold aug_format. intros H Hnamed.
+  set (ps := pseudo_args f (get_command_names_all f) 1 1) in *.
+  set (P := map (fun p : str * arg * cname => (fst (fst p), snd (fst p))) ps) in *.
+  destruct (format_of_elements _ None) as [f0|k] eqn:E; cbn [bind] in H; [|discriminate].
+  inversion H; subst f0 ar cns. clear H.
+  assert (args_named (supdate P (get_arguments_all f))) as Hn.
+  { apply supdate_named; [apply pseudo_named|exact Hnamed]. }
+  unfold format_of_elements in E.
+  destruct (add_elements (empty_builder None) _) as [b|k] eqn:Eb; cbn [bind] in E; [|discriminate].
+  inversion E; subst f'. clear E.
+  rewrite add_elements_app in Eb.
+  destruct (add_elements (empty_builder None) (map ECName (get_command_names_all f))) as [b1|k] eqn:E1; cbn [bind] in Eb; [|discriminate].
+  rewrite add_elements_app in Eb.
+  destruct (add_elements b1 (map (fun na : str * arg => EArg (snd na)) _)) as [b2|k] eqn:E2; cbn [bind] in Eb; [|discriminate].
+  apply add_cnames_args in E1 as [B1 A1]. cbn [empty_builder f_base f_args] in B1, A1.
+  apply add_args_args in E2; [|exact B1|rewrite A1; constructor].
+  destruct E2 as (B2 & A2 & N2). rewrite A1 in A2. cbn [app] in A2.
+  apply add_opts_args in Eb as [B3 A3].
+  rewrite map_named in A2 by exact Hn.
+  assert (get_arguments_all (build_format b) = supdate P (get_arguments_all f)) as Hargs.
+  { destruct (build_format_same b) as (Hb & _ & Ha & _). rewrite get_arguments_all_nobase by congruence. congruence. }
+  constructor.
+  - exact Hargs.
+  - rewrite <- A2. exact N2.
+  - exact Hn.
+  - destruct (supdate_keys (get_arguments_all f) P) as [l Hl].
+    replace (map fst (map (fun p : str * arg * cname => (fst (fst p), snd p)) ps)) with (map fst P)
+      by (unfold P; rewrite !map_map; reflexivity).
+    replace (length (map (fun p : str * arg * cname => (fst (fst p), snd p)) ps)) with (length P)
+      by (unfold P; rewrite !map_length; reflexivity).
+    eapply firstn_map_fst_app; eauto.
+Qed.
+
+(* ================= 5. clause 5: more positional arguments than declared -> CannotParse ================= *)
+(* a token that the loop reads as a positional argument while options are still parsed: empty, "-", or
+   not starting with "-"; after the "--" separator every token is positional *)
+Definition plain (tok : str) : bool := negb (nonempty tok) || negb (starts_dash tok) || str_eqb tok [DASH].
+Definition positional (p : bool) (tok : str) : bool := negb p || plain tok.
+Definition no_multi (A : list (str * arg)) : bool := forallb (fun na => negb (a_multi (snd na))) A.
+
+Lemma step_positional f len p st tok rest : positional p tok = true ->
+  step f len p st tok rest =
+  match parse_argument f len st tok with Ok st' => Ok (p, st', rest) | Err k => Err k end.
+Proof.
+  unfold positional, plain, step. destruct p; cbn [negb orb andb]; [|reflexivity]. intros H.
+  destruct (nonempty tok) eqn:Hne; cbn [negb orb] in *; [|reflexivity].
+  destruct (str_eqb_spec tok [DASH]) as [->|Hnd]; [reflexivity|]. rewrite orb_false_r in H.
+  apply negb_true_iff in H. rewrite H.
+  destruct tok as [|c r]; [discriminate|]. cbn [starts_dash] in H.
+  assert (is_dd (c :: r) = false) as -> by (unfold is_dd; cbn [str_eqb]; now rewrite H).
+  assert (starts_dd (c :: r) = false) as -> by (unfold starts_dd; destruct r; [reflexivity|now rewrite H]).
+  reflexivity.
+Qed.
+
+Lemma has_arg_nth f (i : nat) :
+  has_argument f (APos (Z.of_nat i)) true = (i <? length (get_arguments_all f))%nat.
+Proof.
+  unfold has_argument. cbn [get_arguments].
+  destruct (Nat.ltb_spec i (length (get_arguments_all f))); destruct (Z.leb_spec 0 (Z.of_nat i));
+    destruct (Z.ltb_spec (Z.of_nat i) (Z.of_nat (length (get_arguments_all f)))); try reflexivity; lia.
+Qed.
+Lemma get_arg_nth f (i : nat) :
+  get_argument f (APos (Z.of_nat i)) true =
+  match nth_error (get_arguments_all f) i with Some (_, a) => Ok a | None => Err NoSuchArgument end.
+Proof.
+  unfold get_argument. cbn [get_arguments].
+  destruct (Z.leb_spec (Z.of_nat (length (get_arguments_all f))) (Z.of_nat i)).
+  - assert (nth_error (get_arguments_all f) i = None) as -> by (apply nth_error_None; lia). reflexivity.
+  - destruct (Z.ltb_spec (Z.of_nat i) 0); [lia|]. rewrite Nat2Z.id. reflexivity.
+Qed.
+Lemma pred_pos (n : nat) : (Z.of_nat (S n) - 1 = Z.of_nat n)%Z.
+Proof. lia. Qed.
+Lemma has_arg_neg f : has_argument f (APos (Z.of_nat 0 - 1)) true = false.
+Proof. reflexivity. Qed.
+
+Lemma no_multi_nth A i k a : no_multi A = true -> nth_error A i = Some (k, a) -> a_multi a = false.
+Proof.
+  unfold no_multi. rewrite forallb_forall. intros H Hn. apply nth_error_In in Hn.
+  specialize (H _ Hn). cbn in H. now apply negb_true_iff.
+Qed.
+
+(* all argument slots are taken and none of them is multi-valued: one more positional is rejected *)
+Lemma parse_argument_full f st tok :
+  length (get_arguments_all f) <= length (ps_args st) -> no_multi (get_arguments_all f) = true ->
+  parse_argument f false st tok = Err CannotParse.
+Proof.
+  intros Hl Hm. unfold parse_argument. rewrite has_arg_nth.
+  destruct (Nat.ltb_spec (length (ps_args st)) (length (get_arguments_all f))); [lia|].
+  destruct (length (ps_args st)) as [|n] eqn:En; [rewrite has_arg_neg; reflexivity|].
+  rewrite pred_pos, has_arg_nth, get_arg_nth.
+  destruct (Nat.ltb_spec n (length (get_arguments_all f))); [|reflexivity].
+  destruct (nth_error (get_arguments_all f) n) as [[k a]|] eqn:E; cbn [bind]; [|apply nth_error_None in E; lia].
+  rewrite (no_multi_nth _ _ _ _ Hm E). reflexivity.
+Qed.
+
+Theorem extra_positional_at f f' ar cns toks p st tok rest :
+  aug_format f = Ok (f', ar, cns) ->
+  reach f' false true ps_empty toks p st (tok :: rest) ->
+  positional p tok = true -> no_multi (get_arguments_all f') = true ->
+  length (get_arguments_all f') <= length (ps_args st) ->
+  parse f false toks = Err CannotParse.
+Proof.
+  intros Ha Hr Hp Hm Hl. eapply strict_error_at; eauto.
+  rewrite step_positional by exact Hp. rewrite parse_argument_full; auto.
+Qed.
+
+(* ---- invariant of the scratch arguments: the keys are the first names of the argument list ---- *)
+Definition entry_ok (kv : str * rawarg) : Prop := snd kv <> RList [].
+Definition args_inv_st (A : list (str * arg)) (st : pstate) : Prop :=
+  map fst (ps_args st) = map fst (firstn (length (ps_args st)) A) /\ Forall entry_ok (ps_args st).
+
+Lemma nth_split_keys (A : list (str * arg)) c k a : NoDup (map fst A) -> nth_error A c = Some (k, a) ->
+  firstn (S c) A = firstn c A ++ [(k, a)] /\ ~ In k (map fst (firstn c A)).
+Proof.
+  intros Hnd Hn. destruct (nth_error_split A c Hn) as (l1 & l2 & HA & Hl). subst A c.
+  split.
+  - rewrite firstn_app, firstn_all2 by lia. replace (S (length l1) - length l1) with 1 by lia.
+    rewrite firstn_app, firstn_all, Nat.sub_diag. cbn. now rewrite app_nil_r.
+  - rewrite firstn_app, firstn_all, Nat.sub_diag. cbn [firstn]. rewrite app_nil_r.
+    rewrite map_app in Hnd. cbn [map fst] in Hnd. apply NoDup_remove_2 in Hnd.
+    intros Hin. apply Hnd. apply in_or_app. now left.
+Qed.
+
+Lemma flatten_app d1 d2 : flatten (d1 ++ d2) = flatten d1 ++ flatten d2.
+Proof. unfold flatten. apply flat_map_app. Qed.
+
+(* a positional token lands in the next free slot *)
+Lemma parse_argument_next f len st tok k a :
+  NoDup (map fst (get_arguments_all f)) -> args_named (get_arguments_all f) ->
+  args_inv_st (get_arguments_all f) st ->
+  nth_error (get_arguments_all f) (length (ps_args st)) = Some (k, a) ->
+  parse_argument f len st tok =
+    Ok {| ps_args := ps_args st ++ [(k, if a_multi a then RList [tok] else RStr tok)]; ps_opts := ps_opts st |}.
+Proof.
+  intros Hnd Hnm [Hk _] Hn. unfold parse_argument. rewrite has_arg_nth.
+  assert (length (ps_args st) < length (get_arguments_all f)) as Hlt by (apply nth_error_Some; congruence).
+  destruct (Nat.ltb_spec (length (ps_args st)) (length (get_arguments_all f))); [|lia].
+  rewrite get_arg_nth, Hn. cbn [bind].
+  assert (a_name a = k) as Hak by (symmetry; apply Hnm; eapply nth_error_In; eauto).
+  destruct (nth_split_keys _ _ _ _ Hnd Hn) as [_ Hnotin]. rewrite <- Hk in Hnotin.
+  assert (sget k (ps_args st) = None) as Hg by (apply notin_sget_none; exact Hnotin).
+  rewrite Hak. unfold append_arg. rewrite Hg.
+  destruct (a_multi a); (unfold sset; rewrite sset_absent by exact Hg; reflexivity).
+Qed.
+
+Lemma args_inv_snoc A st k a v o :
+  NoDup (map fst A) -> args_inv_st A st -> nth_error A (length (ps_args st)) = Some (k, a) -> v <> RList [] ->
+  args_inv_st A {| ps_args := ps_args st ++ [(k, v)]; ps_opts := o |}.
+Proof.
+  intros Hnd [Hk Hf] Hn Hv. unfold args_inv_st. cbn [ps_args]. split.
+  - rewrite app_length. cbn [length]. rewrite Nat.add_1_r.
+    destruct (nth_split_keys _ _ _ _ Hnd Hn) as [-> _]. rewrite !map_app, <- Hk. reflexivity.
+  - apply Forall_app. split; [exact Hf|]. constructor; [exact Hv|constructor].
+Qed.
+
+Lemma forall_sset (P : str * rawarg -> Prop) k v d : Forall P d -> P (k, v) -> Forall P (sset k v d).
+Proof.
+  intros Hd Hv. apply Forall_forall. intros [k' v'] Hin. apply in_sset in Hin as [[-> ->]|Hin]; [exact Hv|].
+  rewrite Forall_forall in Hd. now apply Hd.
+Qed.
+
+Lemma parse_argument_inv f len st tok st' :
+  NoDup (map fst (get_arguments_all f)) -> args_named (get_arguments_all f) ->
+  args_inv_st (get_arguments_all f) st -> parse_argument f len st tok = Ok st' ->
+  args_inv_st (get_arguments_all f) st'.
+Proof.
+  intros Hnd Hnm Hi. destruct (nth_error (get_arguments_all f) (length (ps_args st))) as [[k a]|] eqn:Hn.
+  - rewrite (parse_argument_next f len st tok k a Hnd Hnm Hi Hn). intros H. inversion H; subst.
+    apply (args_inv_snoc _ _ _ a); auto. destruct (a_multi a); discriminate.
+  - unfold parse_argument. rewrite has_arg_nth. apply nth_error_None in Hn.
+    destruct (Nat.ltb_spec (length (ps_args st)) (length (get_arguments_all f))) as [Hlt|Hge]; [lia|].
+    assert (forall nm, shas nm (ps_args st) = true -> args_inv_st (get_arguments_all f) (append_arg st nm tok)) as Happ.
+    { intros nm Hs. destruct Hi as [Hk Hf]. unfold append_arg, args_inv_st. cbn [ps_args]. split.
+      - assert (length (sset nm (RList (match sget nm (ps_args st) with Some (RList l) => l | _ => [] end ++ [tok])) (ps_args st))
+                = length (ps_args st)) as Hlen.
+        { rewrite <- (map_length fst), sset_keys, Hs, app_nil_r, map_length. reflexivity. }
+        rewrite Hlen, sset_keys, Hs, app_nil_r. exact Hk.
+      - apply forall_sset; [exact Hf|]. unfold entry_ok. cbn [snd].
+        destruct (match sget nm (ps_args st) with Some (RList l) => l | _ => [] end); discriminate. }
+    destruct (length (ps_args st)) as [|n] eqn:En.
+    + rewrite has_arg_neg. destruct len; intros H; inversion H; subst; exact Hi.
+    + rewrite pred_pos, has_arg_nth, get_arg_nth.
+      destruct (Nat.ltb_spec n (length (get_arguments_all f))) as [Hlt2|Hge2].
+      * destruct (nth_error (get_arguments_all f) n) as [[k a]|] eqn:E; cbn [bind]; [|discriminate].
+        destruct (a_multi a).
+        -- intros H. inversion H; subst. apply Happ.
+           assert (a_name a = k) as -> by (symmetry; apply Hnm; eapply nth_error_In; eauto).
+           destruct Hi as [Hk _]. rewrite shas_sget.
+           destruct (sget k (ps_args st)) eqn:Eg; [reflexivity|]. exfalso.
+           apply sget_none_notin in Eg. apply Eg. rewrite Hk, En.
+           apply in_map_iff. exists (k, a). split; [reflexivity|].
+           destruct (nth_split_keys _ _ _ _ Hnd E) as [-> _]. apply in_or_app. right. now left.
+        -- destruct len; intros H; inversion H; subst; exact Hi.
+      * destruct len; intros H; inversion H; subst; exact Hi.
+Qed.
+
+(* option tokens leave the scratch arguments alone *)
+Lemma store_args st n o v t st' t' : store st n o v t = Ok (st', t') -> ps_args st' = ps_args st.
+Proof.
+  unfold store. destruct (match v with Some [] => None | x => x end) as [s|].
+  - destruct (o_multi o); intros H; inversion H; reflexivity.
+  - destruct (o_required o); [discriminate|]. destruct (o_multi o); [discriminate|]. intros H; inversion H; reflexivity.
+Qed.
+Lemma add_long_args f st n v t st' t' : add_long_option f st n v t = Ok (st', t') -> ps_args st' = ps_args st.
+Proof.
+  rewrite add_long_eq. destruct (negb (has_option f n true)); [discriminate|].
+  destruct (get_option f n true) as [o|k]; cbn [bind]; [|discriminate].
+  destruct (match v with Some _ => negb (o_accepts o) | None => false end); [discriminate|]. apply store_args.
+Qed.
+Lemma add_short_args f st n v t st' t' : add_short_option f st n v t = Ok (st', t') -> ps_args st' = ps_args st.
+Proof.
+  unfold add_short_option. destruct (negb (has_option f n true)); [discriminate|].
+  destruct (get_option f n true) as [o|k]; cbn [bind]; [|discriminate]. apply add_long_args.
+Qed.
+Lemma parse_long_args f st tk t st' t' : parse_long_option f st tk t = Ok (st', t') -> ps_args st' = ps_args st.
+Proof.
+  unfold parse_long_option. destruct (split_eq (skipn 2 tk) []) as [[n v]|]; [apply add_long_args|].
+  destruct (accepts f (skipn 2 tk)); [|apply add_long_args].
+  destruct (take_value t) as [v t2]. apply add_long_args.
+Qed.
+Lemma short_set_args f : forall name st t st' t',
+  fst (short_set f st name t) = Ok (st', t') -> ps_args st' = ps_args st.
+Proof.
+  induction name as [|c rest IH]; intros st t st' t'; cbn [short_set fst].
+  - intros H. inversion H. reflexivity.
+  - destruct (negb (has_option f [c] true)); [discriminate|].
+    destruct (get_option f [c] true) as [o|k]; [|discriminate].
+    destruct (o_accepts o).
+    + destruct (add_long_option f st (o_long o) _ t) as [[s1 t1]|k] eqn:E; cbn [fst]; [|discriminate].
+      intros H. inversion H; subst. eapply add_long_args; eauto.
+    + destruct (add_long_option f st (o_long o) None t) as [[s1 t1]|k] eqn:E; cbn [fst]; [|discriminate].
+      intros H. apply IH in H. apply add_long_args in E. congruence.
+Qed.
+Lemma parse_short_args f st tk t st' t' :
+  fst (parse_short_option f st tk t) = Ok (st', t') -> ps_args st' = ps_args st.
+Proof.
+  unfold parse_short_option. destruct (skipn 1 tk) as [|c [|c2 rest]]; cbn [fst]; [discriminate| |].
+  - destruct (accepts f [c]).
+    + destruct (take_value t) as [v t2]. cbn [fst]. apply add_short_args.
+    + cbn [fst]. apply add_short_args.
+  - destruct (accepts f [c]); [cbn [fst]; apply add_short_args|apply short_set_args].
+Qed.
+Lemma step_args f len p st tok rest p1 st1 t1 :
+  step f len p st tok rest = Ok (p1, st1, t1) ->
+  ps_args st1 = ps_args st \/ parse_argument f len st tok = Ok st1.
+Proof.
+  unfold step.
+  destruct (p && negb (nonempty tok)).
+  { destruct (parse_argument f len st tok) as [s|k]; intros H; inversion H; subst; auto. }
+  destruct (p && is_dd tok).
+  { intros H; inversion H; subst; auto. }
+  destruct (p && starts_dd tok).
+  { destruct (parse_long_option f st tok rest) as [[s x]|k] eqn:E; intros H; inversion H; subst.
+    left. eapply parse_long_args; eauto. }
+  destruct (p && starts_dash tok && negb (str_eqb tok [DASH])).
+  { destruct (fst (parse_short_option f st tok rest)) as [[s x]|k] eqn:E; intros H; inversion H; subst.
+    left. eapply parse_short_args; eauto. }
+  destruct (parse_argument f len st tok) as [s|k]; intros H; inversion H; subst; auto.
+Qed.
+
+Lemma args_inv_same A st st' : ps_args st' = ps_args st -> args_inv_st A st -> args_inv_st A st'.
+Proof. unfold args_inv_st. intros ->. auto. Qed.
+
+Lemma loop_inv f len : NoDup (map fst (get_arguments_all f)) -> args_named (get_arguments_all f) ->
+  forall fuel p st t st', loop fuel f len p st t = (st', None) ->
+  args_inv_st (get_arguments_all f) st -> args_inv_st (get_arguments_all f) st'.
+Proof.
+  intros Hnd Hnm. induction fuel as [|fuel IH]; intros p st t st' Hl Hi; [cbn in Hl; discriminate|].
+  destruct t as [|tok rest]; [cbn in Hl; inversion Hl; subst; exact Hi|].
+  destruct (step f len p st tok rest) as [[[p1 st1] t1]|k] eqn:E.
+  - rewrite (loop_step_ok _ _ _ _ _ _ _ _ _ _ E) in Hl. apply (IH _ _ _ _ Hl).
+    destruct (step_args _ _ _ _ _ _ _ _ _ E) as [Hs|Hs].
+    + eapply args_inv_same; eauto.
+    + eapply parse_argument_inv; eauto.
+  - pose proof (loop_step_err _ _ fuel _ _ _ _ _ E) as He. rewrite Hl in He. discriminate.
+Qed.
+Lemma args_inv_empty A : args_inv_st A ps_empty.
+Proof. split; [reflexivity|constructor]. Qed.
+
+Lemma entries_flatten d : Forall entry_ok d -> length d <= length (flatten d).
+Proof.
+  induction 1 as [|[k v] r Hv Hr IH]; [cbn; lia|].
+  change ((k, v) :: r) with ([(k, v)] ++ r). rewrite flatten_app, !app_length.
+  assert (1 <= length (flatten [(k, v)])); [|cbn [length] in *; lia].
+  unfold entry_ok in Hv. cbn in *. destruct v as [s|[|x l]|c]; cbn; try lia. congruence.
+Qed.
+
+Lemma reach_scans f t p st : reach f false true ps_empty t p st [] -> scans f t st.
+Proof.
+  intros Hr. unfold scans. destruct (reach_loop _ _ _ _ _ _ _ _ Hr (S (length t)) ltac:(lia)) as (fuel' & Hf & ->).
+  destruct fuel'; [cbn in Hf; lia|reflexivity].
+Qed.
+
+(* ---- a run of plain tokens fills the argument slots in order (no multi-valued argument) ---- *)
+Lemma plain_positional tok : plain tok = true -> positional true tok = true.
+Proof. intros H. unfold positional. now rewrite H. Qed.
+
+Lemma plain_run f len : NoDup (map fst (get_arguments_all f)) -> args_named (get_arguments_all f) ->
+  no_multi (get_arguments_all f) = true ->
+  forall pre st more, forallb plain pre = true -> args_inv_st (get_arguments_all f) st ->
+  length (ps_args st) + length pre <= length (get_arguments_all f) ->
+  exists st', reach f len true st (pre ++ more) true st' more /\
+              length (ps_args st') = length (ps_args st) + length pre /\
+              flatten (ps_args st') = flatten (ps_args st) ++ pre /\ ps_opts st' = ps_opts st.
+Proof.
+  intros Hnd Hnm Hm. induction pre as [|tok pre IH]; intros st more Hp Hi Hl.
+  - exists st. rewrite app_nil_r, Nat.add_0_r. repeat split; auto. apply reach_here.
+  - cbn [forallb] in Hp. apply andb_prop in Hp as [Ht Hp]. cbn [length] in Hl.
+    destruct (nth_error (get_arguments_all f) (length (ps_args st))) as [[k a]|] eqn:Hn;
+      [|apply nth_error_None in Hn; lia].
+    pose proof (parse_argument_next f len st tok k a Hnd Hnm Hi Hn) as Hpa.
+    rewrite (no_multi_nth _ _ _ _ Hm Hn) in Hpa.
+    set (st1 := {| ps_args := ps_args st ++ [(k, RStr tok)]; ps_opts := ps_opts st |}) in *.
+    assert (args_inv_st (get_arguments_all f) st1) as Hi1 by (apply (args_inv_snoc _ _ _ a); auto; discriminate).
+    destruct (IH st1 more Hp Hi1) as (st' & Hr & Hlen & Hfl & Ho).
+    { unfold st1. cbn [ps_args]. rewrite app_length. cbn [length]. lia. }
+    exists st'. split; [|split; [|split]].
+    + cbn [app]. eapply reach_next; [|exact Hr]. rewrite step_positional by (apply plain_positional; exact Ht).
+      rewrite Hpa. reflexivity.
+    + rewrite Hlen. unfold st1. cbn [ps_args length]. rewrite app_length. cbn [length]. lia.
+    + rewrite Hfl. unfold st1. cbn [ps_args]. rewrite flatten_app, <- app_assoc. reflexivity.
+    + rewrite Ho. reflexivity.
+Qed.
+
+(* option-free lines: as many plain tokens as there are slots (command names included), then one more *)
+Theorem too_many_positionals f f' ar cns pre tok rest :
+  aug_format f = Ok (f', ar, cns) -> args_named (get_arguments_all f) -> no_multi ar = true ->
+  forallb plain pre = true -> length pre = length ar -> plain tok = true ->
+  parse f false (pre ++ tok :: rest) = Err CannotParse.
+Proof.
+  intros Ha Hnm Hm Hp Hl Ht. destruct (aug_format_ok _ _ _ _ Ha Hnm) as [HA Hnd Hnamed _].
+  destruct (plain_run f' false) with (pre := pre) (st := ps_empty) (more := tok :: rest)
+    as (st' & Hr & Hlen & _); try (rewrite HA; assumption); [exact Hp|apply args_inv_empty|cbn; rewrite HA; lia|].
+  apply (extra_positional_at f f' ar cns _ true st' tok rest Ha Hr).
+  - apply plain_positional; exact Ht.
+  - rewrite HA; exact Hm.
+  - rewrite Hlen, HA. cbn. lia.
+Qed.
+
+(* ---- re-alignment against omitted command names ---- *)
+Lemma skip_names_spec vals : forall cns k0 vals' cns' k, skip_names vals cns k0 = (vals', cns', k) ->
+  exists m, k = k0 + m /\ cns' = skipn m cns /\ vals' = skipn m vals /\ m <= length cns /\ m <= length vals.
+Proof.
+  induction vals as [|v r IH]; intros cns k0 vals' cns' k; cbn [skip_names].
+  - intros H. inversion H; subst. exists 0. cbn. repeat split; lia.
+  - destruct cns as [|c cr].
+    + intros H. inversion H; subst. exists 0. cbn. repeat split; lia.
+    + destruct (nonempty v && cname_match (snd c) v).
+      * intros H. apply IH in H as (m & -> & -> & -> & H1 & H2). exists (S m). cbn [skipn length]. repeat split; lia.
+      * intros H. inversion H; subst. exists 0. cbn. repeat split; lia.
+Qed.
+
+Lemma in_firstn_S {X} (x : X) n l : In x (firstn n l) -> In x (firstn (S n) l).
+Proof.
+  revert l. induction n as [|n IH]; intros l; [cbn; tauto|].
+  destruct l as [|y l]; [cbn; tauto|]. cbn [firstn In]. intros [H|H]; [auto|right; now apply IH].
+Qed.
+
+Lemma copy_values_keys vals : forall ars len fixed0 fixed, copy_values vals ars len fixed0 = Ok fixed ->
+  forall n, shas n fixed = true -> shas n fixed0 = true \/ In n (map fst (firstn (length vals) ars)).
+Proof.
+  induction vals as [|v r IH]; intros ars len fixed0 fixed; cbn [copy_values length].
+  - intros H; inversion H; subst. auto.
+  - destruct ars as [|[k a] ars'].
+    + destruct len; [|discriminate]. intros H; inversion H; subst. auto.
+    + destruct (a_multi a); intros H n Hn; destruct (IH _ _ _ _ H n Hn) as [Hs|Hs].
+      * unfold shas, ahas, sset in Hs. rewrite sget_sset in Hs.
+        destruct (str_eqb_spec n k) as [->|]; [right; cbn; now left|left; exact Hs].
+      * right. apply in_map_iff in Hs as (x & Hx & Hin). apply in_map_iff. exists x. split; [exact Hx|].
+        now apply in_firstn_S.
+      * unfold shas, ahas, sset in Hs. rewrite sget_sset in Hs.
+        destruct (str_eqb_spec n k) as [->|]; [right; cbn; now left|left; exact Hs].
+      * right. cbn [firstn map In]. now right.
+Qed.
+
+Lemma no_multi_skipn A m : no_multi A = true -> no_multi (skipn m A) = true.
+Proof.
+  unfold no_multi. rewrite !forallb_forall. intros H x Hx. apply H.
+  rewrite <- (firstn_skipn m A). apply in_or_app. now right.
+Qed.
+Lemma copy_values_too_many vals : forall ars fixed, no_multi ars = true -> length ars < length vals ->
+  copy_values vals ars false fixed = Err CannotParse.
+Proof.
+  induction vals as [|v r IH]; intros ars fixed Hm Hl; cbn [length] in Hl; [lia|]. cbn [copy_values].
+  destruct ars as [|[k a] ars']; [reflexivity|].
+  cbn [no_multi forallb snd] in Hm. apply andb_prop in Hm as [Ha Hm]. apply negb_true_iff in Ha. rewrite Ha.
+  apply IH; [exact Hm|cbn [length] in Hl; lia].
+Qed.
+
+Lemma fold_sset_has {V} n (l : list (str * V)) : forall d,
+  shas n (fold_left (fun d kv => sset (fst kv) (snd kv) d) l d) = shas n d || shas n l.
+Proof.
+  induction l as [|[k v] r IH]; intros d; cbn [fold_left fst snd]; [cbn; now rewrite orb_false_r|].
+  rewrite IH. unfold shas, ahas, sset. rewrite sget_sset. cbn [aget].
+  destruct (str_eqb n k); [now rewrite orb_true_r|reflexivity].
+Qed.
+
+Lemma nodup_app_disj {X} (l1 l2 : list X) x : NoDup (l1 ++ l2) -> In x l1 -> ~ In x l2.
+Proof.
+  induction l1 as [|y r IH]; cbn; [tauto|]. intros Hnd [->|Hin] H2.
+  - inversion Hnd as [|? ? Hn _]; subst. apply Hn. apply in_or_app. now right.
+  - inversion Hnd; subst. eapply IH; eauto.
+Qed.
+Lemma key_index (ar : list (str * arg)) j n a m :
+  NoDup (map fst ar) -> nth_error ar j = Some (n, a) -> In n (map fst (firstn m ar)) -> j < m.
+Proof.
+  intros Hnd Hn Hin. destruct (Nat.lt_ge_cases j m) as [|Hge]; [assumption|exfalso].
+  rewrite <- (firstn_skipn m ar), map_app in Hnd.
+  apply (nodup_app_disj _ _ n Hnd Hin).
+  assert (j < length ar) as Hj by (apply nth_error_Some; congruence).
+  assert (nth_error (skipn m ar) (j - m) = Some (n, a)) as Hs.
+  { rewrite <- Hn. rewrite <- (firstn_skipn m ar) at 2.
+    rewrite nth_error_app2 by (rewrite firstn_length; lia). rewrite firstn_length. f_equal. lia. }
+  apply nth_error_In in Hs. apply in_map_iff. exists (n, a). auto.
+Qed.
+Lemma firstn_add {X} a b (l : list X) : firstn (a + b) l = firstn a l ++ firstn b (skipn a l).
+Proof.
+  revert l. induction a as [|a IH]; intros l; [reflexivity|].
+  destruct l as [|x l]; [cbn; now destruct b|]. cbn [Nat.add firstn skipn app]. now rewrite IH.
+Qed.
+
+(* ---- what a strict parse does once the token loop has gone through the whole line ---- *)
+Lemma parse_after_scan f f' ar cns toks st1 :
+  aug_format f = Ok (f', ar, cns) -> scans f' toks st1 ->
+  parse f false toks =
+  match insert_missing ar cns false st1 with
+  | Err k => Err k
+  | Ok st2 =>
+      if missing_required ar st2 then Err CannotParse
+      else do a1 <- set_arguments f {| ar_opts := []; ar_args := [] |} (ps_args st2);
+           set_options f a1 (ps_opts st2)
+  end.
+Proof.
+  intros Ha Hs. unfold parse, parse_on. rewrite Ha. unfold scans in Hs. rewrite Hs.
+  destruct (insert_missing ar cns false st1) as [st2|k]; [|reflexivity].
+  destruct (missing_required ar st2); reflexivity.
+Qed.
+
+(* too many positionals, found only when the values are re-aligned against omitted command names:
+   vals' are the positionals left once the leading ones that spell command names are set aside *)
+Theorem too_many_after_realign f f' ar cns toks st1 vals' cns' k :
+  aug_format f = Ok (f', ar, cns) -> scans f' toks st1 ->
+  skip_names (flatten (ps_args st1)) cns 0 = (vals', cns', k) ->
+  no_multi ar = true -> length ar - length cns < length vals' ->
+  parse f false toks = Err CannotParse.
+Proof.
+  intros Ha Hs Hsk Hm Hl. rewrite (parse_after_scan _ _ _ _ _ _ Ha Hs).
+  unfold insert_missing. rewrite Hsk.
+  destruct (skip_names_spec _ _ _ _ _ _ Hsk) as (m & -> & -> & -> & H1 & H2).
+  rewrite copy_values_too_many; [reflexivity|apply no_multi_skipn; exact Hm|].
+  rewrite !skipn_length in *. lia.
+Qed.
+
+(* ================= 6. clause 4: a required argument is missing -> CannotParse ================= *)
+Lemma insert_missing_missing ar cns st1 st2 vals' cns' k j n a :
+  NoDup (map fst ar) -> map fst cns = map fst (firstn (length cns) ar) ->
+  skip_names (flatten (ps_args st1)) cns 0 = (vals', cns', k) ->
+  insert_missing ar cns false st1 = Ok st2 ->
+  nth_error ar j = Some (n, a) -> a_required a = true ->
+  shas n (ps_args st1) = false -> length cns + length vals' <= j ->
+  missing_required ar st2 = true.
+Proof.
+  intros Hnd Hcns Hsk Hi Hn Hreq Hs1 Hj. unfold insert_missing in Hi. rewrite Hsk in Hi.
+  destruct (skip_names_spec _ _ _ _ _ _ Hsk) as (m & -> & -> & -> & H1 & H2).
+  destruct (copy_values _ _ false _) as [fixed|k0] eqn:Ec; cbn [bind] in Hi; [|discriminate].
+  inversion Hi; subst st2. clear Hi.
+  unfold missing_required. apply existsb_exists. exists (n, a). split; [eapply nth_error_In; eauto|].
+  cbn [fst snd ps_args]. rewrite Hreq, fold_sset_has, Hs1. cbn [andb orb].
+  destruct (shas n fixed) eqn:Hf; [exfalso|reflexivity].
+  destruct (copy_values_keys _ _ _ _ _ Ec n Hf) as [H0|H0].
+  - (* a command-name slot *)
+    assert (In n (map fst (skipn m cns))) as Hin.
+    { rewrite shas_sget in H0.
+      destruct (sget n (map (fun c : str * cname => (fst c, RCmd (snd c))) (skipn m cns))) as [v|] eqn:Eg; [|discriminate].
+      apply sget_in in Eg. apply in_map_iff in Eg as ([k1 c1] & Hk & Hin). inversion Hk; subst.
+      apply in_map_iff. exists (n, c1). auto. }
+    assert (In n (map fst cns)) as Hin2.
+    { rewrite <- (firstn_skipn m cns), map_app. apply in_or_app. now right. }
+    rewrite Hcns in Hin2. pose proof (key_index _ _ _ _ _ Hnd Hn Hin2). lia.
+  - (* one of the slots the re-aligned values were copied to *)
+    rewrite (skipn_length m cns) in H0. replace (0 + m + (length cns - m)) with (length cns) in H0 by lia.
+    assert (In n (map fst (firstn (length cns + length (skipn m (flatten (ps_args st1)))) ar))) as Hin.
+    { rewrite firstn_add, map_app. apply in_or_app. now right. }
+    pose proof (key_index _ _ _ _ _ Hnd Hn Hin). lia.
+Qed.
+
+(* GENERAL FORM.  The loop goes through the whole line; vals' are the positionals left once the leading
+   ones that spell command names are set aside; the i-th declared argument (0-based, after the
+   command-name slots) is required and i >= number of those positionals. *)
+Theorem missing_argument f f' ar cns toks st1 vals' cns' k i n a :
+  aug_format f = Ok (f', ar, cns) -> args_named (get_arguments_all f) ->
+  scans f' toks st1 ->
+  skip_names (flatten (ps_args st1)) cns 0 = (vals', cns', k) ->
+  nth_error ar (length cns + i) = Some (n, a) -> a_required a = true -> length vals' <= i ->
+  parse f false toks = Err CannotParse.
+Proof.
+  intros Ha Hnm Hs Hsk Hn Hreq Hi. destruct (aug_format_ok _ _ _ _ Ha Hnm) as [HA Hnd Hnamed Hcns].
+  rewrite (parse_after_scan _ _ _ _ _ _ Ha Hs).
+  pose proof (insert_missing_spec ar cns false st1) as Hspec.
+  destruct (insert_missing ar cns false st1) as [st2|k0] eqn:Ei; [|destruct Hspec as [-> _]; reflexivity].
+  assert (args_inv_st ar st1) as [Hk Hf].
+  { rewrite <- HA. eapply (loop_inv f' false); try (rewrite HA; assumption); [exact Hs|apply args_inv_empty]. }
+  destruct (skip_names_spec _ _ _ _ _ _ Hsk) as (m & Hk0 & Hc' & Hv' & H1 & H2).
+  pose proof (entries_flatten _ Hf) as Hlen.
+  assert (shas n (ps_args st1) = false) as Hs1.
+  { rewrite shas_sget. destruct (sget n (ps_args st1)) as [v|] eqn:Eg; [exfalso|reflexivity].
+    apply sget_in in Eg. assert (In n (map fst (ps_args st1))) as Hin by (apply in_map_iff; exists (n, v); auto).
+    rewrite Hk in Hin. pose proof (key_index _ _ _ _ _ Hnd Hn Hin).
+    subst vals'. rewrite skipn_length in Hi. lia. }
+  rewrite (insert_missing_missing ar cns st1 st2 vals' cns' k _ n a Hnd Hcns Hsk Ei Hn Hreq Hs1); [reflexivity|lia].
+Qed.
+
+(* OPTION-FREE LINES (formats without multi-valued argument): toks are plain tokens *)
+Lemma plain_scans f f' ar cns toks :
+  aug_format f = Ok (f', ar, cns) -> args_named (get_arguments_all f) -> no_multi ar = true ->
+  forallb plain toks = true -> length toks <= length ar ->
+  exists st1, scans f' toks st1 /\ flatten (ps_args st1) = toks /\ ps_opts st1 = [].
+Proof.
+  intros Ha Hnm Hm Hp Hl. destruct (aug_format_ok _ _ _ _ Ha Hnm) as [HA Hnd Hnamed _].
+  pose proof (plain_run f' false) as PR. rewrite HA in PR.
+  destruct (PR Hnd Hnamed Hm toks ps_empty [] Hp (args_inv_empty _)) as (st' & Hr & _ & Hfl & Ho); [cbn; lia|].
+  rewrite app_nil_r in Hr. exists st'. split; [apply (reach_scans _ _ _ _ Hr)|]. split; [exact Hfl|exact Ho].
+Qed.
+
+Theorem missing_argument_plain f f' ar cns toks vals' cns' k i n a :
+  aug_format f = Ok (f', ar, cns) -> args_named (get_arguments_all f) -> no_multi ar = true ->
+  forallb plain toks = true -> length toks <= length ar ->
+  skip_names toks cns 0 = (vals', cns', k) ->
+  nth_error ar (length cns + i) = Some (n, a) -> a_required a = true -> length vals' <= i ->
+  parse f false toks = Err CannotParse.
+Proof.
+  intros Ha Hnm Hm Hp Hl Hsk Hn Hreq Hi.
+  destruct (plain_scans _ _ _ _ _ Ha Hnm Hm Hp Hl) as (st1 & Hs & Hfl & _).
+  eapply missing_argument; eauto. rewrite Hfl. exact Hsk.
+Qed.
+
+(* clause 5 for option-free lines, both ways of finding out: more plain tokens than there are argument
+   slots once the spelled command names are discounted *)
+Theorem too_many_plain f f' ar cns toks vals' cns' k :
+  aug_format f = Ok (f', ar, cns) -> args_named (get_arguments_all f) -> no_multi ar = true ->
+  forallb plain toks = true -> skip_names toks cns 0 = (vals', cns', k) ->
+  length ar - length cns < length vals' ->
+  parse f false toks = Err CannotParse.
+Proof.
+  intros Ha Hnm Hm Hp Hsk Hl. destruct (Nat.le_gt_cases (length toks) (length ar)) as [Hle|Hgt].
+  - destruct (plain_scans _ _ _ _ _ Ha Hnm Hm Hp Hle) as (st1 & Hs & Hfl & _).
+    eapply too_many_after_realign; eauto. rewrite Hfl. exact Hsk.
+  - rewrite <- (firstn_skipn (length ar) toks) in Hp |- *.
+    rewrite forallb_app in Hp. apply andb_prop in Hp as [Hp1 Hp2].
+    destruct (skipn (length ar) toks) as [|tok rest] eqn:E.
+    { assert (length (skipn (length ar) toks) = 0) as H0 by (rewrite E; reflexivity). rewrite skipn_length in H0. lia. }
+    cbn [forallb] in Hp2. apply andb_prop in Hp2 as [Ht _].
+    eapply too_many_positionals; eauto. rewrite firstn_length. lia.
+Qed.
+
+Open Scope string_scope.
+Lemma ex_f_named : args_named (get_arguments_all ex_f).  Proof. apply args_named_b_ok. vm_compute. reflexivity. Qed.
+Lemma ex_g_named : args_named (get_arguments_all ex_g).  Proof. apply args_named_b_ok. vm_compute. reflexivity. Qed.
+
+(* clause 5 *)
+Example ex_extra_positional_after_dd : parse ex_g false (T ["x"; "--verbose"; "2"; "--"; "-y"; "z"]) = Err CannotParse.
+Proof.
+  eapply (extra_positional_at ex_g ex_g' ex_gar ex_gcn _ false _ (S_ "-y") (T ["z"]) ex_g_aug).
+  - repeat (eapply reach_next; [vm_compute; reflexivity|]). apply reach_here.
+  - reflexivity.
+  - vm_compute. reflexivity.
+  - vm_compute. lia.
+Qed.
+Example ex_too_many_positionals : parse ex_f false (T ["server"; "add"; "x"; "2"; "y"; "--nope"]) = Err CannotParse.
+Proof.
+  apply (too_many_positionals ex_f ex_f' ex_far ex_fcn (T ["server"; "add"; "x"; "2"]) (S_ "y") (T ["--nope"]) ex_f_aug ex_f_named);
+    vm_compute; reflexivity.
+Qed.
+Example ex_too_many_after_realign : parse ex_f false (T ["x"; "--verbose"; "2"; "y"]) = Err CannotParse.
+Proof.
+  eapply (too_many_after_realign ex_f ex_f' ex_far ex_fcn _ (scan_st ex_f' (T ["x"; "--verbose"; "2"; "y"])) _ _ _ ex_f_aug).
+  - vm_compute. reflexivity.
+  - vm_compute. reflexivity.
+  - vm_compute. reflexivity.
+  - vm_compute. lia.
+Qed.
+Example ex_too_many_plain : parse ex_f false (T ["server"; "x"; "2"; "y"]) = Err CannotParse.
+Proof.
+  eapply (too_many_plain ex_f ex_f' ex_far ex_fcn _ _ _ _ ex_f_aug ex_f_named); [vm_compute; reflexivity..|vm_compute; lia].
+Qed.
+Example ex_too_many_plain_g : parse ex_g false (T ["x"; "2"; "y"; "z"]) = Err CannotParse.
+Proof.
+  eapply (too_many_plain ex_g ex_g' ex_gar ex_gcn _ _ _ _ ex_g_aug ex_g_named); [vm_compute; reflexivity..|vm_compute; lia].
+Qed.
+
+(* clause 4 *)
+Example ex_missing_argument : parse ex_f false (T ["server"; "--num"; "3"; "add"; "-v"]) = Err CannotParse.
+Proof.
+  eapply (missing_argument ex_f ex_f' ex_far ex_fcn _ (scan_st ex_f' (T ["server"; "--num"; "3"; "add"; "-v"])) _ _ _ 0 _ _
+            ex_f_aug ex_f_named); [vm_compute; reflexivity..|vm_compute; lia].
+Qed.
+Example ex_missing_argument_names_omitted : parse ex_f false (T ["--opt"; "-q"]) = Err CannotParse.
+Proof.
+  eapply (missing_argument ex_f ex_f' ex_far ex_fcn _ (scan_st ex_f' (T ["--opt"; "-q"])) _ _ _ 0 _ _
+            ex_f_aug ex_f_named); [vm_compute; reflexivity..|vm_compute; lia].
+Qed.
+Example ex_missing_argument_plain : parse ex_f false (T ["srv"; "add"]) = Err CannotParse.
+Proof.
+  eapply (missing_argument_plain ex_f ex_f' ex_far ex_fcn _ _ _ _ 0 _ _ ex_f_aug ex_f_named);
+    [vm_compute; try reflexivity; lia..|vm_compute; lia].
+Qed.
+Close Scope string_scope.
